@@ -17,6 +17,7 @@ mod token;
 mod upgrade;
 mod probe;
 mod selfcheck;
+mod system;
 
 use binder::make_binder;
 use serde_json::{json, Value as J};
